@@ -10,12 +10,13 @@
 // exported protobuf types.
 //
 // Violation keys (witness classes):
-//   path=front-insert-without-prev-fix  first bad state of the history shows an element at position > 0
-//                                       whose PreviousKey is its own key (insertAfterLastJailed with no
-//                                       jailed key queued). The history is not checked any further.
-//   prev-pointer, cycle, dangling-key, last-key, list-length, orphan-element, last-jailed, waiting-set,
-//   staked-counter, max-nodes, decode   every other structural break, in a history that never produced
-//                                       the state above.
+//
+//	path=front-insert-without-prev-fix  first bad state of the history shows an element at position > 0
+//	                                    whose PreviousKey is its own key (insertAfterLastJailed with no
+//	                                    jailed key queued). The history is not checked any further.
+//	prev-pointer, cycle, dangling-key, last-key, list-length, orphan-element, last-jailed, waiting-set,
+//	staked-counter, max-nodes, decode   every other structural break, in a history that never produced
+//	                                    the state above.
 package main
 
 import (
@@ -42,7 +43,7 @@ const knownKey = "path=front-insert-without-prev-fix"
 
 var debugReasons = os.Getenv("VERIF_DEBUG") != ""
 
-func hx(b []byte) string { return hex.EncodeToString(b) }
+func hx(b []byte) string  { return hex.EncodeToString(b) }
 func bi(v int64) *big.Int { return big.NewInt(v) }
 func short(b []byte) string {
 	if len(b) > 4 {
